@@ -13,6 +13,7 @@
      fix_leaf : Node._generate returns is_valid for a Leaf instead of True
      fix_af   : Node._analyze_forwards looks the incoming record up by (source, index),
                 not by index alone
+     fix_reset: generate_paths resets the distances of all reachable nodes before analysing
    The correspondence check runs the variant that matches /repo's working tree. *)
 From Fences Require Export Base.
 
@@ -80,7 +81,11 @@ Fixpoint argmin_go (l : list dist) (k : nat) (best : option nat) (bv : dist) : o
 Definition argmin (l : list dist) := argmin_go l 0 None None.
 Definition row (m : amap) (n len : nat) : list dist := map (m n) (seq 0 len).
 
-Record variant := mkVariant { fix_leaf : bool; fix_af : bool }.
+Record variant := mkVariant { fix_leaf : bool; fix_af : bool; fix_reset : bool }.
+
+(* forget the annotations of the nodes in [its] (generate_paths "Reset counter", after the fix) *)
+Definition areset (its : list nat) (m : amap) : amap :=
+  fun a b => if mem a its then None else m a b.
 
 Record entry := mkEntry { etarget : nat; epath : list nat; evalid : bool }.
 
@@ -124,6 +129,35 @@ Fixpoint exec (fuel : nat) (g : graph) (n : nat) (p : list nat) : res (list nat 
 Definition execute fuel g n p : res (list nat) :=
   do '(tr, r) <- exec fuel g n p;
   match r with [] => Ok tr | _ => LibErr EInternal end.
+
+(* the same interpreter with the data flow made visible: every applied node is recorded together
+   with the node whose apply() produced the data it received (None = the caller's data), and the
+   node whose apply() result is returned (None = Python's None of a do-all without children) *)
+Fixpoint execv (fuel : nat) (g : graph) (from : option nat) (n : nat) (p : list nat)
+  : res (list (nat * option nat) * list nat * option nat) :=
+  match fuel with
+  | 0 => OutOfFuel
+  | S f =>
+    match kind_of g n with
+    | KRef _ => PyErr ENotImplemented
+    | KLeaf _ => Ok ([(n, from)], p, Some n)
+    | KDec true _ =>
+        foldM (fun '(tr, p, _) t => do '(tr', p', v') <- execv f g (Some n) t p; Ok (tr ++ tr', p', v'))
+              (outs_of g n) ([(n, from)], p, None)
+    | KDec false _ =>
+        match p with
+        | [] => PyErr EIndexError
+        | i :: p' =>
+          match nth_error (outs_of g n) i with
+          | None => PyErr EIndexError
+          | Some t => do '(tr, r, v) <- execv f g (Some n) t p'; Ok ((n, from) :: tr, r, v)
+          end
+        end
+    end
+  end.
+Definition executev fuel g n p : res (list (nat * option nat) * option nat) :=
+  do '(tr, r, v) <- execv fuel g None n p;
+  match r with [] => Ok (tr, v) | _ => LibErr EInternal end.
 
 (* ---------- Node._analyze_forwards ---------- *)
 Definition af_pick (n idx : nat) (rec : nat * nat) : bool :=
@@ -279,6 +313,8 @@ Definition analyse (fuel : nat) (g : graph) (root : nat) (lr0 lv0 : amap) : res 
   do its <- items fuel g root;
   let valid := filter (leaf_is g true) its in
   let invalid := filter (leaf_is g false) its in
+  let lr0 := if fix_reset V then areset its lr0 else lr0 in
+  let lv0 := if fix_reset V then areset its lv0 else lv0 in
   do lr <- af fuel g lr0 root 0;
   do lv <- foldM (fun lv l => ab fuel g lv l 0) valid lv0;
   Ok (mkAnalysis valid invalid lr lv).
@@ -299,5 +335,5 @@ Definition gp_entries (V : variant) (fuel : nat) (g : graph) (root : nat)
   | _ => None
   end.
 
-Definition V_pinned := mkVariant false false.
-Definition V_fixed := mkVariant true true.
+Definition V_pinned := mkVariant false false false.
+Definition V_fixed := mkVariant true true true.
